@@ -680,14 +680,20 @@ pub fn lint_with(files: &Files, faults: &[(String, Fault)]) -> Result<LintOut, P
             .iter()
             .map(|e| (DiagnosticItem::from(e.clone()), parse_error_code(e).to_string()))
             .collect();
-        match Manager::run(nodes) {
-            Ok(dm) => {
+        // the two halves of Manager::run, so that the graph can be taken apart afterwards (its
+        // Rc cycles would otherwise keep every analysed program alive for the life of the worker)
+        match Manager::gen_full_cfg(nodes) {
+            Ok(cfg) => {
+                let mut dm = DiagnosticManager::new();
+                Manager::run_diagnostics(&cfg, &mut dm);
                 for d in dm.iter() {
                     items.push((
                         DiagnosticItem::from_displayable(d.as_ref()),
                         d.get_error_code().to_string(),
                     ));
                 }
+                drop(dm);
+                dispose(&cfg);
             }
             Err(e) => {
                 out.cfg_error = Some(cfg_error_code(&e).to_string());
